@@ -4,6 +4,9 @@ import (
 	"bytes"
 	"encoding/json"
 	"fmt"
+	"github.com/storacha/go-ucanto/core/car"
+	"github.com/storacha/go-ucanto/core/delegation"
+	"github.com/storacha/go-ucanto/ucan"
 	"io"
 	"math/rand"
 	"strings"
@@ -29,6 +32,8 @@ import (
 func init() {
 	gens["C11"] = genC11
 	execs["req"] = execReq
+	execs["reqcraft"] = execReqCraft
+	isolatedOps["reqcraft"] = true
 	execs["reqmut"] = execReqMut
 	isolatedOps["req"] = true
 	isolatedOps["reqmut"] = true
@@ -270,6 +275,7 @@ func genC11(cfg Config, emit Emit) error {
 			emit("handle", []string{hexTok([]byte(carCT)), hexTok([]byte(sb.String())), []string{"valid", "garbage"}[i%2]}, "headers/accept", true)
 		}
 	}
+	genC11Crafted(cfg, emit)
 	// (ii) structured malformation at every position, singly and in pairs
 	n := 1500
 	if cfg.Thorough() {
@@ -500,6 +506,75 @@ func execReqMut(a []string) (res Result) {
 		default:
 			body = body[:i]
 		}
+	}
+	impl, oracle := reqOutcome(cw, body, carHdr)
+	return Result{Impl: impl, Oracle: oracle}
+}
+
+// ---- crafted requests: resources at the boundary of what the library's DID reader accepts, and a token
+// filed under an identity CID that it cites itself -------------------------------------------------
+
+func genC11Crafted(cfg Config, emit Emit) {
+	pools()
+	valid := edPool[1].DID().String()
+	withs := []string{"", "did", "did:", "did:key", "did:key:", "did:key:z", "did:key:m", "did:key:z6", "did:web:", "did:web:x", "did::", "did:key:" + strings.Repeat("1", 80),
+		valid[:len(valid)-1], valid[:12], valid + "x", strings.ToUpper(valid), "did:key:z" + valid[9:] + "\x00", "did:KEY:" + valid[8:], "ucan:*", "did:key:\u65e5\u672c"}
+	for _, can := range []string{"lib/did", "lib/key"} {
+		for _, w := range withs {
+			emit("reqcraft", []string{"with", can, hexTok([]byte(w))}, "crafted/with", true)
+		}
+	}
+	for k := 0; k < 6; k++ {
+		emit("reqcraft", []string{"identity-self", itoa(k), "-"}, "crafted/identity-self", true)
+	}
+}
+
+func execReqCraft(a []string) (res Result) {
+	defer func() {
+		if r := recover(); r != nil {
+			res = Result{Impl: "panic", Oracle: fmt.Sprintf("fail:panic: %v at %s", r, panicSite())}
+		}
+	}()
+	pools()
+	// a plain world provides the server (its own method plus the library-reader methods)
+	w := &AWorld{CanIssue: "self", Revoked: []int{}, Resolver: []int{}, ResolveKey: [][2]int{}, Desc: ADesc{Can: "store/add", With: "any", Derives: "default"},
+		Principals: []APrincipal{{Kind: "ed", Parse: true, Wraps: -1}, {Kind: "ed", Parse: true, Wraps: -1}},
+		Tokens:     []AToken{{ID: 0, Iss: 1, Aud: 0, Signer: 1, Intact: true, AlgOk: true, Caps: []ACap{{Can: "store/add", With: "@1", Nb: [][2]int{}}}}},
+		Inv:        0, Invs: []int{0}, Services: []ASvc{{Can: "store/add", Result: "ok"}}}
+	cw, err := Concretise(w)
+	if err != nil {
+		return Result{Impl: "skip:" + err.Error(), Oracle: "ok"}
+	}
+	svc, alice := cw.P[0].signer, cw.P[1].signer
+	var body []byte
+	switch a[0] {
+	case "with":
+		inv, err := invocation.Invoke(alice, svc, ucan.NewCapability(a[1], string(unhexTok(a[2])), NbMap{F: map[string]any{}}), delegation.WithNoExpiration())
+		if err != nil {
+			return Result{Impl: "skip:" + err.Error(), Oracle: "ok"}
+		}
+		msg, err := message.Build([]invocation.Invocation{inv, cw.D[0]}, nil)
+		if err != nil {
+			return Result{Impl: "skip:" + err.Error(), Oracle: "ok"}
+		}
+		body, _ = io.ReadAll(car.Encode([]ipld.Link{msg.Root().Link()}, msg.Blocks()))
+	case "identity-self":
+		// token T cites the identity CID I of other bytes; the archive files T's bytes under I
+		k := atoi(a[1])
+		h, _ := mh.Sum([]byte{byte(k), 1, 2}, mh.IDENTITY, -1)
+		idl := cidlink.Link{Cid: cid.NewCidV1(0x71, h)}
+		aud := []ucan.Principal{alice, svc}[k%2]
+		t, err := invocation.Invoke(alice, aud, ucan.NewCapability("store/add", edPool[2+k].DID().String(), NbMap{F: map[string]any{}}), delegation.WithNoExpiration(), delegation.WithProof(delegation.FromLink(idl)))
+		if err != nil {
+			return Result{Impl: "skip:" + err.Error(), Oracle: "ok"}
+		}
+		filed := block.NewBlock(idl, t.Root().Bytes())
+		execute := []ipld.Link{idl}
+		if k >= 2 { // or: the genuine invocation is sent, and its proof link resolves to the token itself
+			execute = []ipld.Link{t.Link()}
+		}
+		rt := encodeMsgRoot(execute, nil)
+		body = carOf([]ipld.Link{rt.Link()}, []ipld.Block{rt, filed, t.Root(), cw.D[0].Root()})
 	}
 	impl, oracle := reqOutcome(cw, body, carHdr)
 	return Result{Impl: impl, Oracle: oracle}
